@@ -82,6 +82,10 @@ def ann_expr(spec):
         _, base, fields, opts = spec
         fs = []
         for name, fspec, default in fields:
+            if fspec[0] == "r" and fspec[3] == "anyfield":
+                # annotated Any, the constraints declared on the Field
+                fs.append(f"{name}=(Any, Field({_cons_kw(fspec[2])}{', default=' + default if default else ''}))")
+                continue
             if default is None:
                 fs.append(f"{name}=({ann_expr(fspec)},)")
             else:
